@@ -215,12 +215,29 @@ class OperationTrait(TraitImpl, IOperation):
 		if not isinstance(value.types, defs.Class):
 			return None
 
-		for inherit in value.types.inherits:
-			inherit_symbol = self.reflections.resolve(inherit)
+		# 実引数の全ての祖先クラスを近い順(深さ優先・左から)に照合する
+		for inherit_symbol in self._ancestors(value.types):
 			if inherit_symbol in parameter_types:
 				return method.returns(inherit_symbol)
 
 		return None
+
+	def _ancestors(self, types: defs.Class) -> list[IReflection]:
+		"""祖先クラスのシンボルを近い順に取得 (メンバー検索と同じ深さ優先・左から)
+
+		Args:
+			types: クラス
+		Returns:
+			シンボルリスト
+		"""
+		ancestors: list[IReflection] = []
+		for inherit in types.inherits:
+			inherit_symbol = self.reflections.resolve(inherit)
+			ancestors.append(inherit_symbol)
+			if isinstance(inherit_symbol.types, defs.Class):
+				ancestors.extend(self._ancestors(inherit_symbol.types))
+
+		return ancestors
 
 	def _find_method(self, symbol: IReflection, method_name: str) -> refs.Function | None:
 		"""演算用のメソッドを検索。存在しない場合はNoneを返却
